@@ -7,6 +7,7 @@ CFG = dict(
     unproved=["absence of data races on memory (needs the Go memory model; not expressible in the protocol model): searched with the race detector only",
               "no goroutine leak after Stop / Stop returns within its grace period as wall-clock time: the model proves that Stop passes waitLifecycle only with the counter at zero and that every tracked thread exits once done is closed and it is scheduled; real-time bounds and leaks are outside every theorem",
               "the eight query kinds: the protocol model is query-independent (one result-producing engine thread); window / CEP specific goroutines (window trigger loops, CEP sweeper, the inline CEP flush of Stop) are not modelled",
+              "start_stop_serialised (Start racing Stop: lifecycle.Add never races Wait — the startMu argument) and cep_flush_before_return of DESIGN §5 are not modelled: Start happens before any schedule begins, MATCH_RECOGNIZE's inline flush is exercised only by the free-running search",
               "per-row recover of processItem: modelled and covered by sink_panic_contained, but no input of the public API makes row evaluation panic (expr-lang converts function panics into errors), so this branch is tied to the code by reading only"],
     rule="schedule-driven: the data processor, the sink worker, one EmitSync caller, one AddSink caller, one Emit caller and two Stop callers of a direct query are parked at the verif yield points "
          "(cons.recv, sinks.call, sinks.submit, stop.flag/done/nil/wait/joined, harness points emit.call/sync.call/add.call/stop.call and sink.enter inside every registered sink) and released one at a time; "
